@@ -138,6 +138,7 @@ func (f *Frame) execCallCommon(ins ssa.Instruction, c *ssa.CallCommon, st *State
 	}
 	// unknown call: havoc the heap
 	u.abstractf("%s: call to %s has no contract: heap havoced, result unconstrained", u.name, orDyn(name, c))
+	u.eventWhy = "call to " + orDyn(name, c) + " (no contract)"
 	u.havocAll(st)
 	f.havocGhosts(st)
 	// closures passed to unknown code may run: havoc the cells they write
@@ -460,6 +461,7 @@ func (f *Frame) applyContract(spec *UnitSpec, name string, c *ssa.CallCommon, si
 	if spec.FrameAssumed {
 		u.AssumedUse["frame of "+name+" (preserves "+strings.Join(spec.Preserves, ", ")+") is assumed"] = true
 	}
+	u.eventWhy = "call to " + name
 	switch {
 	case len(spec.Preserves) > 0:
 		u.havocAllExcept(st, itemsMatchers(spec.Preserves, spec.Pkg))
